@@ -337,6 +337,26 @@ class AffineMatrix3D:
         raise HarnessError('AffineMatrix3D.inverse not modelled (supply to/from pair explicitly)')
 
 
+def rotate_z(deg):
+    """raysect.core.rotate_z: right-handed rotation about z by `deg` degrees"""
+    import math as _m
+    a = deg * _m.pi / 180.0   # left-to-right so that (phi / pi * 180) * pi / 180 == phi exactly in real mode
+    c, s_ = MATH.cos(a), MATH.sin(a)
+    return AffineMatrix3D([[c, -s_, 0.0, 0.0], [s_, c, 0.0, 0.0], [0.0, 0.0, 1.0, 0.0], [0.0, 0.0, 0.0, 1.0]])
+
+
+def clamp(v, mn, mx):
+    """raysect.core.math.cython.clamp"""
+    import math as _m
+    if not (isinstance(mn, float) and _m.isinf(mn)):
+        if v < mn:
+            return mn
+    if not (isinstance(mx, float) and _m.isinf(mx)):
+        if v > mx:
+            return mx
+    return v
+
+
 def translate(x, y, z):
     return AffineMatrix3D([[1.0, 0.0, 0.0, x], [0.0, 1.0, 0.0, y], [0.0, 0.0, 1.0, z], [0.0, 0.0, 0.0, 1.0]])
 
@@ -398,6 +418,7 @@ MODELS = {
     'Spectrum': Spectrum, 'new_spectrum': new_spectrum,
     'Vector3D': Vector3D, 'Point3D': Point3D, 'Point2D': Point2D, 'AffineMatrix3D': AffineMatrix3D,
     'new_vector3d': new_vector3d, 'new_point3d': new_point3d, 'new_point2d': new_point2d, 'translate': translate,
+    'rotate_z': rotate_z, 'clamp': clamp,
     'Arg1D': Arg1D, 'Arg2D': Arg2D, 'Arg3D': Arg3D,
 }
 
